@@ -6,7 +6,7 @@ import (
 	"net/http/httptest"
 	"testing"
 
-	"github.com/gotid/god/internal/vrt"
+	vrt "github.com/gotid/god"
 	"github.com/gotid/god/lib/logx"
 	"github.com/gotid/god/lib/stat"
 )
